@@ -16,11 +16,15 @@ Thorough == IOEnv.VERIF_TIER = "thorough"
 \* target override every file class (plain / encrypted / fix-key, 300 .. 40 000 bytes) changes its layout class
 \* (single unit <-> multi-sector) in both directions.  edge: 33 raw files "300 random bytes + k zeros" around the
 \* point where a compressor saves exactly nothing (store-raw rule of a recompressing rebuild).
-Src(v, a, e, g, b, x) == [ver |-> v, at |-> a, empty |-> e, sig |-> g, sbs |-> b, edge |-> x]
+\* pow: 0 = none; 1, 2, 3 = the LARGEST file of the source is an incompressible file of 2^11-4 / 2^14-4 / 2^16-4 bytes:
+\* stored sectored (512 B / 4 KiB / 16 KiB sectors) its stored size (raw + sector-offset table) crosses the power of two
+\* its raw size stays below - bit-width arithmetic of the HET/BET tables of V3/V4 targets
+Src(v, a, e, g, b, x) == [ver |-> v, at |-> a, empty |-> e, sig |-> g, sbs |-> b, edge |-> x, pow |-> 0]
 Extras == IF Thorough THEN BOOLEAN \X BOOLEAN \X BOOLEAN
           ELSE {<<FALSE, FALSE, FALSE>>, <<TRUE, FALSE, FALSE>>, <<FALSE, TRUE, FALSE>>, <<FALSE, FALSE, TRUE>>, <<TRUE, TRUE, TRUE>>}
 Sources == {Src(v, t[1], t[2], t[3], b, FALSE) : v \in 1..4, t \in Extras, b \in {-1, 0}}
 EdgeSources == {Src(v, FALSE, FALSE, FALSE, -1, TRUE) : v \in {1, 4}}
+PowSources  == {[Src(v, FALSE, FALSE, FALSE, b, FALSE) EXCEPT !.pow = p] : v \in 1..4, b \in {-1, 0}, p \in 1..3}
 Opt(t, c, b, se, ss, vf, lo) == [target |-> t, comp |-> c, bs |-> b, skipEnc |-> se, skipSig |-> ss, verify |-> vf, listOnly |-> lo]
 Targets == 0..4
 Comps   == {"keep", "none", "zlib", "bzip2"}
@@ -36,7 +40,9 @@ QuickOpts == {o \in AllOpts : \/ Cardinality(Diff(o)) <= 1
 ThoroughOpts == {o \in AllOpts : (o.listOnly => (o.target = 0 /\ o.comp = "keep" /\ o.bs = -1 /\ ~o.verify)) /\ (~o.skipSig => Cardinality(Diff(o)) <= 3)}
 Opts == IF Thorough THEN ThoroughOpts ELSE QuickOpts
 EdgeOpts == {o \in AllOpts : Diff(o) \subseteq {"comp", "verify"}}
-Cases == SetToSeq({[src |-> s, opts |-> o] : s \in Sources, o \in Opts} \cup {[src |-> s, opts |-> o] : s \in EdgeSources, o \in EdgeOpts})
+PowOpts  == {o \in AllOpts : Diff(o) \subseteq {"target", "bs"}}
+Cases == SetToSeq({[src |-> s, opts |-> o] : s \in Sources, o \in Opts} \cup {[src |-> s, opts |-> o] : s \in EdgeSources, o \in EdgeOpts}
+                  \cup {[src |-> s, opts |-> o] : s \in PowSources, o \in PowOpts})
 ASSUME ndJsonSerialize(IOEnv.CASES, Cases)
 ASSUME PrintT(<<"GENERATED", Len(Cases)>>)
 VARIABLE gx
